@@ -3,6 +3,7 @@ package main
 import (
 	"encoding/json"
 	"fmt"
+	plruntime "github.com/GuanceCloud/platypus/pkg/engine/runtime"
 
 	"github.com/GuanceCloud/platypus/pkg/engine"
 	"github.com/GuanceCloud/platypus/pkg/errchain"
@@ -72,6 +73,31 @@ func replayCheck(args []string) (any, error) {
 			detail["load_error"] = fmt.Sprint(lerr)
 			sum.miss(sig, detail)
 			return nil
+		}
+		// the verdict belongs to the script, not to the attempt: a host that keeps the parsed script and checks it again (after
+		// changing its function table, or on a retry) gets the same verdict again
+		if !ps.V2 {
+			if ss, perr := parser.ParsePipeline(ps.Main, text); perr == nil {
+				call, check := v1Tables(&runObs{})
+				for _, w := range append(append([]string{}, ps.Without...), ps.WithoutCall...) {
+					delete(call, w)
+				}
+				for _, w := range append(append([]string{}, ps.Without...), ps.WithoutCheck...) {
+					delete(check, w)
+				}
+				sc := &plruntime.Script{FuncCall: call, Name: ps.Main, Content: text, Ast: ss}
+				for attempt := 1; attempt <= 3; attempt++ {
+					var e error
+					if pe := sc.Check(check); pe != nil {
+						e = pe
+					}
+					if (e == nil) != v.Accept {
+						detail["problem"] = fmt.Sprintf("check number %d of the same parsed script: %v", attempt, e)
+						sum.miss(sig+":recheck", detail)
+						return nil
+					}
+				}
+			}
 		}
 		if lerr != nil {
 			pe, ok := lerr.(*errchain.PlError)
